@@ -11,7 +11,7 @@ import subprocess
 
 import common
 
-HORIZON = 10.0
+HORIZON = 20.0
 
 
 class Outcome:
@@ -139,7 +139,7 @@ def parse_trace(path):
     return decisions, events
 
 
-def run_rq(root, args, threads=1, sched=None, trace=None, preload_env=None, cwd=None, timeout=HORIZON, use_d=True, mem_limit=None, threads_env=False):
+def run_rq(root, args, threads=1, sched=None, trace=None, preload_env=None, cwd=None, timeout=HORIZON, use_d=True, mem_limit=None, threads_env=False, _retry=False):
     """Run `rapidquilt push <args>` on workspace `root`.
     threads>1: under the scheduler; sched = list of worker ids (schedule script), None/[] = serial default.
     trace: path of a trace file to (re)create; preload_env: extra env for the LD_PRELOAD shim."""
@@ -165,11 +165,16 @@ def run_rq(root, args, threads=1, sched=None, trace=None, preload_env=None, cwd=
 
         def pre():
             resource.setrlimit(resource.RLIMIT_AS, (mem_limit, mem_limit))
+    env['RQ_VERIF_STALL_SECS'] = '30'
     try:
         p = subprocess.run(cmd, env=env, stdout=subprocess.PIPE, stderr=subprocess.PIPE, timeout=timeout, cwd=cwd, preexec_fn=pre)
         o = Outcome(p.returncode, classify(p.returncode), p.stdout, p.stderr)
     except subprocess.TimeoutExpired as e:
         o = Outcome(None, 'hang', e.stdout or b'', e.stderr or b'')
+    if o.cls == 'machinery:4' and not _retry:
+        # the cooperative scheduler saw no progress for 30 s: an overloaded machine, not a verdict. The run cannot simply be
+        # repeated here (the workspace has been touched); callers that own the workspace re-create it, everybody else stops.
+        raise common.MachineryError('scheduler stall (exit 4) running %s: %s' % (' '.join(cmd[1:8]), o.err[-200:]))
     if threads > 1 and trace:
         o.decisions, o.events = parse_trace(trace)
     return o
